@@ -885,7 +885,7 @@ def run(tier):
         crossing = [c['id'] for c in lcs if not c['metric'] and c['again'] > 0]
         refused = [c['id'] for c in lcs if c['lclass'] == 'series-bound' and c['exp']['k'] == 'error']
         accepted = [c['id'] for c in lcs if c['lclass'] == 'series-bound' and c['exp']['k'] == 'ok' and len(c['exp']['streams']) == CAP]
-        if len(crossing) < 4 or not refused or not accepted:
+        if len(crossing) < 2 or not refused or not accepted:
             raise vlib.Infra('vacuous long scripts: crossing the flush %s, refused by the series bound %s, accepted at the bound %s'
                              % (crossing, refused, accepted))
         cfp = os.path.join(sd, 'chain_cases.json')
